@@ -47,6 +47,7 @@ var c17LRs = []lrSpec{
 	{"1e-155", &optimizers.SGDConfig{LearningRate: 1e-155}, 1e-155},
 	{"0.01 (the default, given explicitly)", &optimizers.SGDConfig{LearningRate: 0.01}, 0.01}, {"1", &optimizers.SGDConfig{LearningRate: 1}, 1},
 	{zeroValueSGD, nil, 0},
+	{"-1", &optimizers.SGDConfig{LearningRate: -1}, -1}, {"-2", &optimizers.SGDConfig{LearningRate: -2}, -2}, {"-1e308", &optimizers.SGDConfig{LearningRate: -1e308}, -1e308},
 	{"5", &optimizers.SGDConfig{LearningRate: 5}, 5}, {"-7", &optimizers.SGDConfig{LearningRate: -7}, -7}, {"3", &optimizers.SGDConfig{LearningRate: 3}, 3},
 }
 
@@ -321,6 +322,12 @@ func c17Case(k *fw.K, shape []int, lr lrSpec, src int) {
 		if e1 != nil || e2 != nil || !ref.SameShape(gv.Shape, shape) {
 			k.Failf("weight / gradient unreadable or gradient of shape %v for weight %v (%v %v)", gv, shape, e1, e2)
 			return
+		}
+		if k.Rng.Intn(6) == 0 && src != 6 {
+			// the caller re-arms the GRADIENT tensor (gradient clipping / logging code that wants to differentiate through it later): it is
+			// still w's current gradient with the same values, and no operand of a graph awaiting its backward pass
+			oldG.ResetGradContext(true)
+			k.Count("updates_after_the_gradient_tensor_was_re_armed_by_the_caller", 1)
 		}
 		slot = w
 		ptr := &slot
